@@ -15,17 +15,22 @@ class LockMonitor:
         st.user["watch"] = dict(lo=ptr, hi=ptr + size, mutex=mutex, name=name)
         st.user["role"] = 0
         st.user["acc"] = []
+        st.user["call"] = 0          # one public-method call per vf_thread marker
+        st.user["epoch"] = 0         # number of times the object's mutex has been released so far
 
     def set_role(self, eng, st, k, label):
         st.user["role"] = k
         st.user["role_label"] = label
+        st.user["call"] = st.user.get("call", 0) + 1
 
     # -- engine callbacks
     def lock(self, eng, st, m):
         pass
 
     def unlock(self, eng, st, m):
-        pass
+        w = st.user.get("watch")
+        if w is not None and m == w["mutex"] and st.locks.get(m, 0) == 0:
+            st.user["epoch"] = st.user.get("epoch", 0) + 1
 
     def _owned_heap(self, eng, st, w):
         """heap blocks reachable from the object through pointer-sized concrete cells"""
@@ -92,6 +97,8 @@ class LockMonitor:
             break
         st.user["acc"].append(dict(where=where, size=size, write=is_write, held=held, atomic=atomic, locks=locks,
                                    role=st.user["role"], label=st.user.get("role_label", ""), fn=fn, top=top,
+                                   call=st.user.get("call", 0), epoch=st.user.get("epoch", 0),
+                                   own=(w["mutex"] in locks),
                                    ins=ins.text[:120]))
 
     def finish(self, eng, st):
@@ -136,6 +143,23 @@ class LockMonitor:
                 "write" if a["write"] else "read", "unprotected" if not (a["held"] or a["atomic"]) else "protected", _short(a["fn"]),
                 "write" if b["write"] else "read", "unprotected" if not (b["held"] or b["atomic"]) else "protected", _short(b["fn"]), len(pairs))
             eng.add_obligation(st, cid, "race", z3.BoolVal(False), note=note)
+        # atomicity of each call: a method that reads or writes the object under its mutex in two different critical sections
+        # (mutex released in between) with at least one write is not atomic - another thread can run in the gap
+        by_call = {}
+        for a in acc:
+            if a.get("own"):
+                by_call.setdefault((a["call"], a["label"]), []).append(a)
+        seen_labels = set()
+        for (call, label), lst in sorted(by_call.items()):
+            epochs = sorted(set(a["epoch"] for a in lst))
+            if len(epochs) > 1 and any(a["write"] for a in lst) and label not in seen_labels:
+                seen_labels.add(label)
+                first = [a for a in lst if a["epoch"] == epochs[0]][0]
+                last = [a for a in lst if a["epoch"] == epochs[-1]][-1]
+                note = "%s: %s in %s and %s in %s happen in %d separate critical sections of the same mutex" % (
+                    label, "write" if first["write"] else "read", _short(first["fn"]),
+                    "write" if last["write"] else "read", _short(last["fn"]), len(epochs))
+                eng.add_obligation(st, "atomicity:%s:%s" % (w["name"], label), "race", z3.BoolVal(False), note=note)
         # positive obligation: all accesses of all roles protected
         if not races:
             eng.stats["lockset_clean_paths"] = eng.stats.get("lockset_clean_paths", 0) + 1
